@@ -609,7 +609,7 @@ def correspondence(ctx):
         ctx.count("shared_state_sites_new_or_changed", len(new) + len(gone))
         ctx.escalated = True
         ctx.shared_state_changed = True
-    cases = list(WITNESS_CASES) + gen_cases(ctx, "corr", ctx.budget(300, 5000), malformed_rate=0.15)
+    cases = list(WITNESS_CASES) + gen_cases(ctx, "corr", ctx.budget(300, 4000), malformed_rate=0.15)
     cases += ambient_cases(ctx, "corr-ambient", ctx.budget(30, 600))
     cases += spelling_cases() + interval_cases() + orbit_cases()
     reqs_c = ["rrule.construct " + wire(c) for c in cases]
@@ -815,6 +815,7 @@ def oracle(ctx):
     ob = orbit_cases()
     ctx.count("oracle_orbit_cases", len(ob))
     evaluate(ctx, ob)
+    until_zone_stream(ctx)
     if len(unknown_violations(ctx)) >= 3:
         ctx.note("oracle stopped after the spelling / interval streams: failing inputs found")
         return
@@ -830,7 +831,7 @@ def oracle(ctx):
     evaluate(ctx, amb)
     if not getattr(ctx, "shared_state_changed", False):
         interleave_stream(ctx)
-    rng_cases = gen_cases(ctx, "oracle", ctx.budget(400, 6500))
+    rng_cases = gen_cases(ctx, "oracle", ctx.budget(400, 5000))
     for i in range(0, len(rng_cases), 500):
         evaluate(ctx, rng_cases[i:i + 500])
         if len(unknown_violations(ctx)) >= 3:
@@ -914,12 +915,38 @@ def run_hist_case(ctx, c, hist, tag):
     return True
 
 
+def run_until_zone_case(ctx, c, tag):
+    res = H.run_until_zone(c)
+    if res == "skip":
+        ctx.count("until_zone_skipped")
+        return
+    ctx.count("until_zone_cases")
+    ctx.count("until_zone_" + tag)
+    ctx.count("until_zone_kind_" + c["until_kind"])
+    rule = {k: c.get(k) for k in ["freq", "interval", "wkst", "dtstart", "zone", "until_place", "until_kind", "until_utc", "n", "byhour", "byminute", "bysecond", "bysetpos"]}
+    ctx.case(json.dumps(rule, sort_keys=True))
+    if res is not None:
+        ctx.violation(res[0], {"rule": rule, "diff": {"kind": "until-zone"}}, res[1])
+
+
+def until_zone_stream(ctx):
+    """UNTIL in ANOTHER zone than DTSTART (RFC 5545: UTC) around the repeated hour and the gap of the start's zone, sub-daily
+    frequencies: `res > until` compares INSTANTS there; see c01_hist.run_until_zone"""
+    rng = ctx.subrng("until-zone")
+    for c in H.until_zone_cases(rng, ctx.budget(150, 1500)):
+        run_until_zone_case(ctx, c, "stream")
+        if len(unknown_violations(ctx)) >= 3:
+            break
+    ctx.note("UNTIL carried by another tzinfo than DTSTART (UTC / fixed offset / equal but distinct zone object) around DST transitions of the "
+             "start's zone: %d rules compared by instants with the unbounded sequence of the same rule" % ctx.hist.get("until_zone_cases", 0))
+
+
 def interleave_stream(ctx):
     """ONE OBJECT, SEVERAL LIVE ITERATORS: see c01_hist.py"""
     rng = ctx.subrng("interleave")
     for c, hist in HIST_SEEDS:
         run_hist_case(ctx, dict(c), hist, "seed")
-    n = ctx.budget(70, 300)
+    n = ctx.budget(70, 200)
     done = 0
     tries = 0
     while done < n and tries < 3 * n:
@@ -1222,7 +1249,9 @@ KNOWN = {k: _known(p) for k, p in CLASS.items()}
 def replay(ctx, payload):
     c = dict(payload["violation"]["case"]["rule"])
     before = len(ctx.violations)
-    if payload["violation"]["case"].get("history") is not None:
+    if c.get("zone") is not None:
+        run_until_zone_case(ctx, c, "replay")
+    elif payload["violation"]["case"].get("history") is not None:
         run_hist_case(ctx, c, payload["violation"]["case"]["history"], "replay")
     else:
         evaluate(ctx, [c])
@@ -1230,5 +1259,5 @@ def replay(ctx, payload):
     for v in new:
         print("still failing:", v["what"])
     if not new:
-        print("rule now agrees with the specification:", wire(c))
+        print("rule now agrees with the specification:", json.dumps(c) if c.get("zone") is not None else wire(c))
     return not new
